@@ -202,6 +202,26 @@ def check(tier, seed):
     ck.obligation("real receiver-role provider over TCP, with and without TLS: a peer that goes silent, sends garbage, stops mid-record, completes TLS only, or hangs up does not keep its slot; "
                   "the pool of 2 returns to full strength, never exceeds 2, and shutdown closes everything; 60 cycles of session death and replacement on a pool of 3 while 8 goroutines keep calling "
                   "Describe()/CanAcceptConnections() never stall (%d rows; model: live=2 then live=0 open=0)" % len(rows), not rbad, "; ".join(x[1] for x in rbad)[:600])
+    # the pool size as the configuration layer hands it on (NewGRPCMuxManager): permits of the provider = configured count
+    cout = os.path.join(V.WORK, "c10_count.out")
+    if os.path.exists(cout):
+        os.remove(cout)
+    rc2, out2 = V.go_test("transport/mux", GO, "^TestVerifMuxCountConfig$", env={"VERIF_OUT": cout}, timeout=300, replace=REPLACE)
+    cbad = []
+    if rc2 != 0 or not os.path.exists(cout):
+        cbad.append("mux count harness failed: " + out2[-800:])
+    else:
+        clines = [l for l in open(cout).read().split("\n") if l.startswith("MUXCOUNT")]
+        for l in clines:
+            f = dict(x.split("=") for x in l.split()[1:] if "=" in x)
+            want = 10 if f.get("configured") == "0" else int(f.get("configured", "-1"))
+            if f.get("permits") != str(want):
+                cbad.append(l + " (want %d)" % want)
+        if len(clines) != 12:
+            cbad.append("%d of 12 configurations reported" % len(clines))
+    ck.obligation("NewGRPCMuxManager builds a provider with exactly the configured number of permits (muxCount 1, 2, 3, 7, 16; unset = the default 10), both roles", not cbad, "; ".join(cbad[:3]))
+    if cbad and not mon and not rbad:
+        ck.violation({"kind": "muxcount", "lines": cbad[:12], "verdict": "the pool is built with a size other than the configured one"}, "C10 configured pool size: " + cbad[0][:300])
     if rbad and not mon:
         name, l = rbad[0]
         row = [r for r in rows if r[0] == name]
@@ -227,6 +247,12 @@ def check(tier, seed):
 
 
 def replay(data):
+    if data.get("kind") == "muxcount":
+        cout = os.path.join(V.WORK, "c10_countr.out")
+        rc2, out2 = V.go_test("transport/mux", GO, "^TestVerifMuxCountConfig$", env={"VERIF_OUT": cout}, timeout=300, replace=REPLACE)
+        print(open(cout).read() if rc2 == 0 and os.path.exists(cout) else out2[-800:])
+        print("recorded:", data.get("lines"))
+        return 1
     if data.get("kind") == "receiver":
         rin = os.path.join(V.WORK, "c10_recvr.in")
         rout = os.path.join(V.WORK, "c10_recvr.out")
